@@ -386,4 +386,290 @@ theorem absE_concE (names : List String) (hn : names.Nodup) (hl : ∀ a, lf (cl 
 
 end absconc
 
+
+/-! ## 1. `update_recursively(d, other)` (functions.py:601-653)
+
+Lean: `C07.updL` / `C07.updateRecursively` (slot vectors, any leaf type), `C13.updL` (slot vectors over
+`C13.Leaf`, the loop body split differently: `updV` per value of `other`), `C08.updRec` /
+`C08.updateRecursively` (association lists: the `for key, val in other.items()` loop as a fold of `setKey`). -/
+
+section update
+
+mutual
+theorem c13_updV_eq : ∀ (v : C13.V) (d : Option C13.V), C07.updO d (some v) = some (C13.updV d v)
+  | .leaf a, d => by cases d <;> simp [C07.updO, C13.updV]
+  | .dict y, none => by simp [C07.updO, C13.updV]
+  | .dict y, some (.leaf _) => by simp [C07.updO, C13.updV, c13_updL_eq y]
+  | .dict y, some (.dict x) => by simp [C07.updO, C13.updV, c13_updL_eq y]
+theorem c13_updO_eq : ∀ (u d : Option C13.V), C13.updO d u = C07.updO d u
+  | none, d => by cases d <;> simp [C07.updO, C13.updO]
+  | some v, d => by rw [C13.updO, c13_updV_eq v d]
+theorem c13_updL_eq : ∀ (u d : C13.Ctx), C13.updL d u = C07.updL d u
+  | [], d => by simp [C13.updL, C07.updL]
+  | y :: r', [] => by simp [C13.updL, C07.updL, c13_updO_eq y, c13_updL_eq r']
+  | y :: r', x :: r => by simp [C13.updL, C07.updL, c13_updO_eq y, c13_updL_eq r']
+end
+
+/-- **update_recursively, C13 = C07**: C13's transcription is C07's at the leaf type `C13.Leaf` — for all
+slot vectors, also of different lengths; no side condition. -/
+theorem updL_13_07 (d u : C13.Ctx) : C13.updL d u = C07.updL d u := c13_updL_eq u d
+
+/-- the per-key body: C13's `updO` is C07's -/
+theorem updO_13_07 (d u : Option C13.V) : C13.updO d u = C07.updO d u := c13_updO_eq u d
+
+example : C13.updL [some (.leaf (.int 1)), some (.dict [none, some (.leaf (.str "x"))])]
+      [none, some (.dict [some (.leaf (.int 2)), none])] =
+    [some (.leaf (.int 1)), some (.dict [some (.leaf (.int 2)), some (.leaf (.str "x"))])] := by decide
+
+variable {β : Type}
+
+/-- the pointwise loop of C07 on two vectors indexed by the same table -/
+theorem updL_map {ι : Type} (f g : ι → Option (Val β)) : ∀ l : List ι,
+    C07.updL (l.map f) (l.map g) = l.map (fun k => C07.updO (f k) (g k))
+  | [] => by simp [C07.updL]
+  | k :: r => by simp [C07.updL, updL_map f g r]
+
+variable (lf : C08.Leaf → β) (ls : List C08.Val → β) (names : List String)
+
+/-- (auxiliary) the new item under one key, for a value `v` of `other` -/
+def UpdOK (v : C08.Val) : Prop := ∀ cur : Option C08.Val,
+  some (absV lf ls names (C08.updItem cur v)) =
+    C07.updO (cur.map (absV lf ls names)) (some (absV lf ls names v))
+
+theorem absE_updRec_of (o : C08.Entries) (ho : C08.EntriesWF o)
+    (hv : ∀ k v, C08.lookup o k = some v → UpdOK lf ls names v) (d : C08.Entries) :
+    absE lf ls names (C08.updRec d o) = C07.updL (absE lf ls names d) (absE lf ls names o) := by
+  unfold absE
+  rw [updL_map]
+  apply List.map_congr_left
+  intro k _
+  rw [absSlot_eq, absSlot_eq, absSlot_eq, C08.lookup_updRec o ho d k]
+  cases h : C08.lookup o k with
+  | none => cases C08.lookup d k <;> simp [C07.updO]
+  | some v => simpa using hv k v h _
+
+mutual
+theorem updOK_val : ∀ v : C08.Val, v.WF → UpdOK lf ls names v
+  | .leaf a, _ => fun cur => by cases cur <;> simp [C08.updItem, absV_leaf, C07.updO]
+  | .list xs, _ => fun cur => by cases cur <;> simp [C08.updItem, absV_list, C07.updO]
+  | .dict o, hw => fun cur => by
+    have hrec := absE_updRec_of lf ls names o hw (updOK_entries o hw)
+    cases cur with
+    | none => simp [C08.updItem, absV_dict, C07.updO]
+    | some c =>
+      cases c with
+      | dict dk => simp [C08.updItem, absV_dict, C07.updO, hrec dk]
+      | leaf a =>
+        simp [C08.updItem, absV_dict, absV_leaf, C07.updO, hrec [], absE_nil, emptyLike, absE_length, Val.empty]
+      | list xs =>
+        simp [C08.updItem, absV_dict, absV_list, C07.updO, hrec [], absE_nil, emptyLike, absE_length, Val.empty]
+theorem updOK_entries : ∀ es : C08.Entries, C08.EntriesWF es →
+    ∀ k v, C08.lookup es k = some v → UpdOK lf ls names v
+  | [], _, k, v, h => by simp [C08.lookup] at h
+  | (k0, v0) :: r, hw, k, v, h => by
+    simp only [C08.EntriesWF] at hw
+    rw [C08.lookup] at h
+    by_cases e : k0 = k
+    · simp [e] at h; subst h; exact updOK_val v0 hw.2.1
+    · simp [e] at h; exact updOK_entries r hw.2.2 k v h
+end
+
+/-- **update_recursively, C08 → C07** (the loop): the slot view of C08's `updRec d other` is C07's `updL` of
+the slot views — for every key table `names`, every leaf abstraction, every `d` (duplicate keys allowed)
+and every `other` without a key twice (`EntriesWF`, at every depth: what a Python dict is).
+Outside the common domain: an `other` with a repeated key (not a Python dict: C08's fold would apply both
+bindings in turn, the slot view sees the first only); the *insertion order* of the result, which the slot
+view forgets (C08 keeps it: `to_string`, `repr`). -/
+theorem updRec_08_07 (d o : C08.Entries) (ho : C08.EntriesWF o) :
+    absE lf ls names (C08.updRec d o) = C07.updL (absE lf ls names d) (absE lf ls names o) :=
+  absE_updRec_of lf ls names o ho (updOK_entries lf ls names o ho) d
+
+/-- the item assigned under one key (`updItem`, the body of the loop) against C07's `updO` -/
+theorem updItem_08_07 (cur : Option C08.Val) (v : C08.Val) (hv : v.WF) :
+    some (absV lf ls names (C08.updItem cur v)) =
+      C07.updO (cur.map (absV lf ls names)) (some (absV lf ls names v)) :=
+  updOK_val lf ls names v hv cur
+
+/-- outcomes of the whole call: C08's `Except Exc Val` against C07's `Out` -/
+def outRel : Except C08.Exc C08.Val → C07.Out (Slots β) → Prop
+  | .ok (.dict es), .ok l => l = absE lf ls names es
+  | .error .lenaTypeError, .lenaTypeError => True
+  | _, _ => False
+
+/-- **update_recursively, C08 → C07** (the call with a non-string `other`, no `value`): the same outcome —
+the updated dictionary, or `LenaTypeError` when an argument is not a dictionary (a Python list is a leaf of
+the slot view).  Outside: `other` a string (section 5), `value` given with a non-string `other`
+(`LenaValueError` in C08 and in `C07.updateRecursivelyX`; `C07.updateRecursively` has no `value`). -/
+theorem updateRecursively_08_07 (d o : C08.Val) (ho : o.WF) :
+    outRel lf ls names (C08.updateRecursively d (.val o) none)
+      (C07.updateRecursively (absV lf ls names d) (absV lf ls names o)) := by
+  cases d with
+  | leaf a => cases o <;> simp [C08.updateRecursively, absV_leaf, absV_list, absV_dict, C07.updateRecursively, outRel]
+  | list xs => cases o <;> simp [C08.updateRecursively, absV_leaf, absV_list, absV_dict, C07.updateRecursively, outRel]
+  | dict de =>
+    cases o with
+    | leaf a => simp [C08.updateRecursively, absV_leaf, absV_dict, C07.updateRecursively, outRel]
+    | list xs => simp [C08.updateRecursively, absV_list, absV_dict, C07.updateRecursively, outRel]
+    | dict oe =>
+      simp only [C08.updateRecursively, Option.isSome_none, Bool.false_eq_true, if_false, absV_dict,
+        C07.updateRecursively, outRel]
+      exact (updRec_08_07 lf ls names de oe ho).symm
+
+/-- C08 → C13: instantiating the leaf abstraction with `leaf13` -/
+theorem updRec_08_13 (d o : C08.Entries) (ho : C08.EntriesWF o) :
+    absE leaf13 (fun _ => C13.Leaf.bad) names (C08.updRec d o) =
+      C13.updL (absE leaf13 (fun _ => .bad) names d) (absE leaf13 (fun _ => .bad) names o) := by
+  rw [updL_13_07]; exact updRec_08_07 _ _ names d o ho
+
+example : C08.EntriesWF [("b", .dict [("a", .leaf (.int 2))]), ("c", .leaf (.str "s"))] := by
+  simp [C08.EntriesWF, C08.Val.WF, C08.lookup]
+
+example : absE leaf13 (fun _ => C13.Leaf.bad) ["a", "b"]
+      (C08.updRec [("b", .leaf (.int 1)), ("a", .leaf (.int 0))] [("b", .dict [("a", .leaf (.int 2))])]) =
+    [some (.leaf (.int 0)), some (.dict [some (.leaf (.int 2)), none])] := by decide
+
+/-! ### corollaries: theorems of one model about the transcription of another -/
+
+/-- C07's `update_idem` holds for C13's transcription (used by the static-context protocol when a context is
+delivered twice) -/
+theorem c13_update_idem (d u : C13.Ctx) : C13.updL (C13.updL d u) u = C13.updL d u := by
+  simp only [updL_13_07]; exact C07.update_idem d u
+
+/-- C07's `update_contains` ("other is contained in the result") for C13's transcription -/
+theorem c13_update_contains (d u : C13.Ctx) : C07.contained (-1) u (C13.updL d u) = true := by
+  rw [updL_13_07]; exact C07.update_contains d u
+
+/-- C13's monotonicity of the update in the information order (`Lemmas/C13Dict.lean`) is a statement about
+C07's `updL` at the leaf type `C13.Leaf` -/
+theorem c07_updL_mono_13 (u a b : C13.Ctx) (h : C13.leL a b) : C13.leL (C07.updL a u) (C07.updL b u) := by
+  rw [← updL_13_07, ← updL_13_07]; exact C13.updL_mono u a b h
+
+/-- C07's `update_idem` for C08's transcription, seen through the slot view (equal up to insertion order) -/
+theorem c08_update_idem (d o : C08.Entries) (ho : C08.EntriesWF o) :
+    absE lf ls names (C08.updRec (C08.updRec d o) o) = absE lf ls names (C08.updRec d o) := by
+  rw [updRec_08_07 lf ls names _ o ho, updRec_08_07 lf ls names d o ho]
+  exact C07.update_idem _ _
+
+/-- C07's `update_keys` for C08's transcription: a key is in the result iff it is in `d` or in `other`
+(through the slot view over the one-key table `[k]`) -/
+theorem c08_update_keys (d o : C08.Entries) (ho : C08.EntriesWF o) (k : String) :
+    (C08.lookup (C08.updRec d o) k).isSome = ((C08.lookup d k).isSome || (C08.lookup o k).isSome) := by
+  let lf : C08.Leaf → Unit := fun _ => ()
+  let ls : List C08.Val → Unit := fun _ => ()
+  have hk : k ∈ [k] := by simp
+  have h := C07.update_keys (absE lf ls [k] d) (absE lf ls [k] o) ([k].idxOf k)
+  rw [← updRec_08_07 lf ls [k] d o ho, getSlot_absE lf ls [k] _ k hk, getSlot_absE lf ls [k] _ k hk,
+    getSlot_absE lf ls [k] _ k hk] at h
+  simpa using h
+
+end update
+
+/-! ## 2. `intersection(*dicts, level=-1)` (functions.py:341-418)
+
+Lean: `C07.interO/interL/interFold/interN` (every `level`), `C13.interV/interO/interL/interFold/interN`
+(the default level only, as `LenaSplit._get_context` calls it).  The default `level = -1` is decremented
+at every recursion and never reaches `0` or `1`: the agreement holds for every negative level.
+Outside the common domain: levels `≥ 0` (C13 does not model them); non-dictionary arguments
+(`C07.intersection` raises `LenaTypeError`, C13's callers pass dictionaries only). -/
+
+section inter
+
+mutual
+theorem c13_interV_eq : ∀ (v w : C13.V) (lv : Int), lv < 0 →
+    C07.interO lv (some v) (some w) = C13.interV v w
+  | .leaf a, w, lv, h => by
+    have h1 : lv ≠ 1 := by omega
+    by_cases e : w = .leaf a
+    · subst e; simp [C07.interO, C13.interV]
+    · cases w <;> simp [C07.interO, C13.interV, e, h1]
+  | .dict x, w, lv, h => by
+    have h1 : lv ≠ 1 := by omega
+    have h2 : lv - 1 ≠ 0 := by omega
+    by_cases e : w = .dict x
+    · subst e; simp [C07.interO, C13.interV]
+    · cases w with
+      | leaf b => simp [C07.interO, C13.interV, h1]
+      | dict y => simp [C07.interO, C13.interV, e, h1, h2, c13_interL_eq x y (lv - 1) (by omega)]
+theorem c13_interO_eq : ∀ (a b : Option C13.V) (lv : Int), lv < 0 → C07.interO lv a b = C13.interO a b
+  | none, b, lv, _ => by cases b <;> simp [C07.interO, C13.interO]
+  | some v, none, lv, _ => by simp [C07.interO, C13.interO]
+  | some v, some w, lv, h => by rw [C13.interO, c13_interV_eq v w lv h]
+theorem c13_interL_eq : ∀ (a b : C13.Ctx) (lv : Int), lv < 0 → C07.interL lv a b = C13.interL a b
+  | [], b, lv, _ => by simp [C07.interL, C13.interL]
+  | x :: r, [], lv, h => by simp [C07.interL, C13.interL, c13_interO_eq x none lv h, c13_interL_eq r [] lv h]
+  | x :: r, y :: r', lv, h => by
+    simp [C07.interL, C13.interL, c13_interO_eq x y lv h, c13_interL_eq r r' lv h]
+end
+
+/-- **intersection, C13 = C07** (one pass of the loop `for key in res:` with its recursion): at every
+negative level C07's `interL` is C13's, for all slot vectors -/
+theorem interL_13_07 (lv : Int) (h : lv < 0) (a b : C13.Ctx) : C07.interL lv a b = C13.interL a b :=
+  c13_interL_eq a b lv h
+
+/-- the loop `for d in dicts[1:]:` with its early return -/
+theorem interFold_13_07 (lv : Int) (h : lv < 0) : ∀ (ds : List C13.Ctx) (res : C13.Ctx),
+    C07.interFold lv res ds = C13.interFold res ds
+  | [], res => by simp [C07.interFold, C13.interFold]
+  | d :: ds, res => by
+    have h0 : lv ≠ 0 := by omega
+    rw [C07.interFold, C13.interFold]
+    simp only [h0, if_false, interL_13_07 lv h]
+    split
+    · exact interFold_13_07 lv h ds _
+    · rfl
+
+/-- **intersection, C13 = C07** (the whole function on dictionaries): `C13.interN n` is `C07.interN n lv` for
+every negative `lv`, in particular for the default `-1` -/
+theorem interN_13_07 (n : Nat) (lv : Int) (h : lv < 0) (ds : List C13.Ctx) :
+    C07.interN n lv ds = C13.interN n ds := by
+  cases ds with
+  | nil => rfl
+  | cons d ds => exact interFold_13_07 lv h ds d
+
+/-- the call on arbitrary values: for dictionaries C07's `intersection` returns C13's `interN` -/
+theorem intersection_13_07 (n : Nat) (ds : List C13.Ctx) :
+    C07.intersection n (-1) (ds.map Val.dict) = .ok (C13.interN n ds) := by
+  rw [(C07.intersection_error_iff n (-1) (ds.map Val.dict)).2 ds rfl, interN_13_07 n (-1) (by decide)]
+
+example : C13.interN 2 [[some (.leaf (.int 1)), some (.dict [some (.leaf (.int 5)), some (.leaf (.str "x"))])],
+      [some (.leaf (.int 1)), some (.dict [some (.leaf (.int 5)), none])]] =
+    [some (.leaf (.int 1)), some (.dict [some (.leaf (.int 5)), none])] := by decide
+
+/-- `LenaSplit._get_context` as C07Ext transcribes it is C13's `interN` -/
+theorem splitGetContext_13_07 (n : Nat) (ctxs : List C13.Ctx) :
+    C07.splitGetContext n ctxs = C13.interN n ctxs :=
+  interN_13_07 n (-1) (by decide) ctxs
+
+/-! ### corollaries -/
+
+/-- C07's `inter_perm` for C13: the context a `Split` exports does not depend on the order of its branches -/
+theorem c13_inter_perm (n : Nat) (ds ds' : List C13.Ctx) (hp : ds.Perm ds') (hw : ∀ d ∈ ds, WFD n d) :
+    C13.interN n ds = C13.interN n ds' := by
+  rw [← interN_13_07 n (-1) (by decide), ← interN_13_07 n (-1) (by decide)]
+  exact C07.inter_perm n (-1) ds ds' hp hw
+
+/-- C07's `inter_lower` / `inter_greatest` for C13, in C07's executable containment `⊑` -/
+theorem c13_inter_glb (n : Nat) (ds : List C13.Ctx) :
+    (∀ d ∈ ds, C07.contained (-1) (C13.interN n ds) d = true) ∧
+    (ds ≠ [] → ∀ c : C13.Ctx, (∀ d ∈ ds, C07.contained (-1) c d = true) →
+      C07.contained (-1) c (C13.interN n ds) = true) := by
+  rw [← interN_13_07 n (-1) (by decide)]
+  exact ⟨fun d hd => C07.inter_lower n (-1) ds d hd, fun hne c hc => C07.inter_greatest n (-1) ds c hne hc⟩
+
+/-- C07's reconstruction law (`reconstruct`) with C13's transcriptions of both `intersection` and
+`update_recursively`: updating the common part with the difference gives the dictionary back -/
+theorem c13_reconstruct (truthy : C13.Leaf → Bool) (n : Nat) (a b : C13.Ctx) :
+    C13.updL (C13.interN n [a, b]) (C07.difference truthy (-1) a b) = a := by
+  rw [updL_13_07, ← interN_13_07 n (-1) (by decide)]
+  exact C07.reconstruct truthy n (-1) a b
+
+/-- C13's greatest-lower-bound property in *its* information order (`interN_is_meet`) is a statement about
+C07's `interN` at level −1 -/
+theorem c07_interN_is_meet_13 (n : Nat) (xs : List C13.Ctx) (hne : xs ≠ []) :
+    (∀ x ∈ xs, C13.leL (C07.interN n (-1) xs) x) ∧
+      ∀ y : C13.Ctx, (∀ x ∈ xs, C13.leL y x) → C13.leL y (C07.interN n (-1) xs) := by
+  rw [interN_13_07 n (-1) (by decide)]
+  exact C13.interN_is_meet n xs hne
+
+end inter
 end Lena.Bridge.Context
